@@ -361,6 +361,12 @@ func (h *Handler) HandleDeleteFile(ctx *Context, path string) error {
 		return ErrWriteForbidden
 	}
 
+	// Remove deletes empty directories too, this command is for files only
+	if stat, err := h.Fs.Stat(path); err == nil && stat.IsDir() {
+		log.WarnContext(ctx, "Remove file failed: is a directory")
+		return fmt.Errorf("%s is a directory", path)
+	}
+
 	if err := h.Fs.Remove(path); err != nil {
 		log.WarnContext(ctx, "Remove file failed", logutil.ErrorAttr(err))
 		return err
@@ -393,6 +399,12 @@ func (h *Handler) HandleRmdir(ctx *Context, path string) error {
 	if !h.AllowWrite {
 		log.WarnContext(ctx, "Modifying operation forbidden", slog.String("op", "rmdir"))
 		return ErrWriteForbidden
+	}
+
+	// Remove deletes files too, this command is for directories only
+	if stat, err := h.Fs.Stat(path); err == nil && !stat.IsDir() {
+		log.WarnContext(ctx, "Remove directory failed: not a directory")
+		return fmt.Errorf("%s is not a directory", path)
 	}
 
 	if err := h.Fs.Remove(path); err != nil {
